@@ -56,4 +56,17 @@ impl<V> IntMap<V> {
         ensures r == self@.dom().len()
     { self.inner.len() }
 }
+/// IntMap::drain() as a function (dependency, ASSUMED): empties the map and yields the value of every key exactly once,
+/// in the order `drain_keys` (an arbitrary but fixed enumeration of the keys of that map)
+pub uninterp spec fn drain_keys<V>(m: Map<u64, V>) -> Seq<u64>;
+#[verifier::external_body]
+pub broadcast proof fn axiom_drain_keys<V>(m: Map<u64, V>)
+    requires m.dom().finite()
+    ensures (#[trigger] drain_keys(m)).no_duplicates(), drain_keys(m).to_set() == m.dom(), drain_keys(m).len() == m.dom().len()
+{}
+#[verifier::external_body]
+pub fn vp_drain<V>(m: &mut IntMap<V>) -> (r: Vec<V>)
+    ensures final(m)@ == Map::<u64, V>::empty(), r@.len() == drain_keys(old(m)@).len(),
+        forall|i: int| 0 <= i < r@.len() ==> old(m)@.contains_key(#[trigger] drain_keys(old(m)@)[i]) && r@[i] == old(m)@[drain_keys(old(m)@)[i]]
+{ unimplemented!() }
 } // mod intmap
